@@ -3,7 +3,7 @@
 # usage: seedrun.sh <Cxx> <mN> [other check ids...]   (reads /tmp/seed-Cxx/_out/mN.*)
 . /verif/env.sh
 id=$1; m=$2; shift 2; extra="$@"
-src=/tmp/seed-$id/_out
+src=${SEED_SRC:-/tmp/seed-$id/_out}
 W=/tmp/mut-$id-$m
 out=/verif/seeded/$id-$m
 rm -rf $W; git -C /repo worktree prune; git -C /repo worktree add -q --detach $W HEAD || exit 2
